@@ -119,7 +119,7 @@ def name_pools():
         "unroll2": {"i0": "a_cg_unroll_0", "i1": "unrolled_1_g", "g": "a_cg_unroll_1", "h": "a"},
         "regs": {"i0": "ff_g", "i1": "g_cg_insert_reg_q_1", "h": "clk", "g": "g"},
         "acyc": {"a": "aux_in_q", "s": "c0_q", "r": "c1_aux_in_q", "d": "aux_in_p", "b": "c0_aux_in_p"},
-        "escaped": {"i0": "\\a[0]", "i1": "\\b+c", "g": "\\out[1]"},
+        "escaped": {"i0": "\\a[0]", "i1": "\\b+c", "g": "\\out[1]", "h": "\\sel", "i2": "sel", "a": "\\reset", "b": "reset", "s": "\\n_1"},
         "verilog": {"i0": "not_a", "i1": "and_a_b", "i2": "a", "h": "g_0"},
     }
 
@@ -238,6 +238,11 @@ def f_bb():
     n3, e3 = pins("b2", BOX, {"r": "z0", "z": "z2"})
     add("boxes_partial", I("a", "b") + [("y0", "buf", []), ("z0", "buf", []), ("y1", "buf", [], True), ("z2", "buf", []), ("o", "nor", ["z2", "a"], True)] + n1 + n2 + n3,
         {"b0": BOX, "b1": BOX, "b2": BOX}, e1 + e2 + e3)
+    n1, e1 = pins("f0", FF, {"clk": "clk", "d": "a", "q": "q0"})
+    n2, e2 = pins("f1", FF, {"clk": "clk", "d": "q0", "q": "q1"})
+    n3, e3 = pins("f2", FF, {"clk": "clk", "d": "a", "q": "q2"})
+    add("clock_fanout", I("clk", "a") + [("q0", "buf", []), ("q1", "buf", []), ("q2", "buf", []), ("g", "and", ["clk", "q1"]), ("o", "xor", ["g", "q2", "a"], True)] + n1 + n2 + n3,
+        {"f0": FF, "f1": FF, "f2": FF}, e1 + e2 + e3)
     n, e = pins("f0", FF, {"clk": "k1", "d": "k0", "q": "qb"})
     add("flop_consts", I("a") + [("k0", "0", []), ("k1", "1", []), ("qb", "buf", []), ("o", "or", ["qb", "a"], True)] + n, {"f0": FF}, e)
     return S
